@@ -512,6 +512,10 @@ func (h h1) Gen(prop, tier string, r *simrt.Rng) (any, simrt.Config) {
 		c.Prog.SetupSleepNs = 0
 		for i := range c.Prog.Iter {
 			c.Prog.Iter[i].SleepNs = int64(simrt.Pick(r, 0, 100, 200, 500, 1000)) * int64(time.Millisecond)
+			if c.C01LateCancel && r.Intn(2) == 0 {
+				// still in flight when the first progress report after the interrupt is made
+				c.Prog.Iter[i].SleepNs = int64(simrt.Pick(r, 1700, 2600, 4100))*int64(time.Millisecond) + 13
+			}
 			c.Prog.Iter[i].Cleanups = nil
 		}
 		if c.Mode == "constant" {
